@@ -332,7 +332,11 @@ def gen_poly(rng, mode, shape=None):
         if mode == "dy":
             vs = [(dy(rng, -8, 8, 2), dy(rng, -8, 8, 2)) for _ in range(n)]
         else:
-            vs = [(Fraction(anyfloat(rng)), Fraction(anyfloat(rng))) for _ in range(n)]
+            # one common scale per polygon (mixed magnitudes give spikes whose lobes cancel: the
+            # centroid is then ill-conditioned in double precision)
+            S = rng.choice([1e-3, 1.0, 10.0, 1e3])
+            ox, oy = rng.uniform(-10, 10) * S, rng.uniform(-10, 10) * S
+            vs = [(Fraction(ox + rng.uniform(-S, S)), Fraction(oy + rng.uniform(-S, S))) for _ in range(n)]
         if rng.random() < 0.3:
             vs.append(vs[0])
     if mode != "dy":
@@ -476,7 +480,7 @@ class L0Poly(Family):
     budget_share = 0.5
 
     def cases(self, tier, rng):
-        n = 400 if tier == "quick" else 6000
+        n = 1000 if tier == "quick" else 6000
         grid = ["grid", -5, ["q", 1, 2], 21, -5, ["q", 1, 2], 21]
         for name in sorted(POLY_SHAPES):
             vs = [[qx(Fraction(x)), qx(Fraction(y))] for x, y in POLY_SHAPES[name]]
@@ -576,7 +580,7 @@ class Contains(Family):
             eps = Fraction(0) if exact else roi_scale(spec) * Fraction(1, 10 ** 6)
             yield [spec, ["grid", qx(x0), qx(dxs), nx, qx(y0), qx(dys), ny], qx(eps), exact, rng.choice(["bcast", "bcast", "meshgrid", "bcast-x"])]
         # random regions of every class
-        nr = 1400 if tier == "quick" else 30000
+        nr = 3000 if tier == "quick" else 30000
         for i in range(nr):
             kind = ("rect", "rect", "ellipse", "ellipse", "poly", "poly", "circle", "annulus", "range")[i % 9]
             mode = "dy" if rng.random() < 0.55 else "fl"
@@ -733,7 +737,7 @@ class Ops(Family):
                 yield self.finish(rng, spec, [["rot", qx(c), qx(s), 0]], "dy")
                 if tier == "thorough":
                     yield self.finish(rng, spec, [["move", 3, -2], ["rot", qx(c), qx(s), 1], ["move", 0, 0]], "dy")
-        n = 900 if tier == "quick" else 20000
+        n = 2000 if tier == "quick" else 20000
         kinds = ("rect", "ellipse", "poly", "poly", "rect", "circle", "annulus", "range", "poly")
         for i in range(n):
             kind = kinds[i % len(kinds)]
@@ -818,6 +822,31 @@ MATS = {
 }
 
 
+def solve4(M, rhs):
+    """exact solution of the 4x4 system (Fractions); None if singular."""
+    A = [[Fraction(M[4 * i + j]) for j in range(4)] + [Fraction(rhs[i])] for i in range(4)]
+    for col in range(4):
+        piv = next((r for r in range(col, 4) if A[r][col] != 0), None)
+        if piv is None:
+            return None
+        A[col], A[piv] = A[piv], A[col]
+        pv = A[col][col]
+        A[col] = [x / pv for x in A[col]]
+        for r in range(4):
+            if r != col and A[r][col] != 0:
+                f = A[r][col]
+                A[r] = [x - f * y for x, y in zip(A[r], A[col])]
+    return [A[i][4] for i in range(4)]
+
+
+def preimage(M, sx, sy, zz):
+    """a 3-d point (multiples of 1/8) that the projection sends close to the screen point (sx, sy)."""
+    v = solve4(M, [sx, sy, zz, 1])
+    if v is None or v[3] == 0:
+        return None
+    return [float(Fraction(math.floor(v[i] / v[3] * 8), 8)) for i in range(3)]
+
+
 class Proj(Family):
     """Projected3dROI.contains3d: matrix x homogeneous point, divide, 2-d test; chunk loop."""
     name = "proj"
@@ -826,7 +855,7 @@ class Proj(Family):
 
     def cases(self, tier, rng):
         yield [["undef", "rect"], [qx(Fraction(m)) for m in MATS["identity"]], ["pts3", [1], [0, 0, 0]], 0, True, "c"]
-        n = 250 if tier == "quick" else 4000
+        n = 600 if tier == "quick" else 4000
         for i in range(n):
             kind = rng.choice(["rect", "circle", "ellipse", "poly", "range", "annulus"])
             spec = GENS[kind](rng, "dy")
@@ -837,9 +866,14 @@ class Proj(Family):
             cx, cy, rad = roi_extent(spec)
             rad = max(rad, 1.0)
             npts = rng.choice([1, 6, 24, 60])
-            pts = [[float(Fraction(math.floor((cx + rng.uniform(-2, 2) * rad) * 8), 8)),
-                    float(Fraction(math.floor((cy + rng.uniform(-2, 2) * rad) * 8), 8)),
-                    float(Fraction(rng.randint(-64, 64), 8))] for _ in range(npts)]
+            pts = []
+            for _ in range(npts):
+                sxy = (Fraction(math.floor((cx + rng.uniform(-1.5, 1.5) * rad) * 8), 8),
+                       Fraction(math.floor((cy + rng.uniform(-1.5, 1.5) * rad) * 8), 8))
+                q = preimage(M, sxy[0], sxy[1], Fraction(rng.randint(-16, 16), 8))
+                if q is None or max(abs(t) for t in q) > 4096:
+                    q = [float(sxy[0]), float(sxy[1]), float(Fraction(rng.randint(-64, 64), 8))]
+                pts.append(q)
             if rng.random() < 0.3:
                 pts.append([float("nan"), 1.0, 1.0])
                 pts.append([1.0, float("inf"), 1.0])
@@ -920,7 +954,7 @@ class Disc(Family):
     budget_share = 1.2
 
     def cases(self, tier, rng):
-        n = 40 if tier == "quick" else 500
+        n = 80 if tier == "quick" else 500
         for i in range(n):
             kind = ("circle", "ellipse", "annulus", "rect", "ellipse")[i % 5]
             mode = "dy" if rng.random() < 0.5 else "fl"
